@@ -108,13 +108,57 @@ func (r *Rng) ListVal(c *GenCfg, depth int) []interface{} {
 	return l
 }
 
-// RootMap generates a non-trivial top-level Map.
+// RootMap generates a non-trivial top-level Map; about one in seventy gets one LARGE part
+// (sizes beyond the usual buffer and capacity thresholds).
 func (r *Rng) RootMap(c *GenCfg) map[string]interface{} {
 	for {
 		m := r.MapVal(c, 0)
 		if len(m) > 0 {
+			if r.P(3) && r.Bool() {
+				r.enlarge(m, c)
+			}
 			return m
 		}
+	}
+}
+
+// bigString: n characters with some special ones and multi-byte runes spread through it.
+func (r *Rng) bigString(n int) string {
+	var sb strings.Builder
+	for sb.Len() < n {
+		sb.WriteString(r.Pick([]string{"abcdefghijklmnopqrstuvwxyz0123456789", "x<y", "R&D ", "é日本", "}{\"", "  ", "0123456789"}))
+	}
+	return sb.String()
+}
+
+// enlarge adds one large part to a Map: a long string, a wide list, a long key or a deep chain.
+func (r *Rng) enlarge(m map[string]interface{}, c *GenCfg) {
+	k := r.Pick(plainKeys)
+	switch r.Intn(5) {
+	case 0:
+		m[k] = r.bigString(66000 + r.Intn(9000))
+	case 1:
+		n := 1000 + r.Intn(3000)
+		l := make([]interface{}, n)
+		for i := range l {
+			l[i] = fmt.Sprintf("w%d", i)
+		}
+		m[k] = l
+	case 2:
+		n := 300 + r.Intn(900)
+		l := make([]interface{}, n)
+		for i := range l {
+			l[i] = map[string]interface{}{"id": fmt.Sprint(i % 7), k: float64(i)}
+		}
+		m[k] = l
+	case 3:
+		m[strings.Repeat(k, 150+r.Intn(200))] = r.Scalar(c)
+	default:
+		var cur interface{} = "deep"
+		for i := 0; i < 40+r.Intn(40); i++ {
+			cur = map[string]interface{}{r.Pick([]string{"a", "b"}): cur}
+		}
+		m[k] = cur
 	}
 }
 
